@@ -33,6 +33,11 @@ CHECKS = {
         "The full product of per-position token alphabets (valid/boundary/negative/huge/non-numeric/empty/padded) with 0-8 fields and several line endings, x five versions: accept/reject verdict, decoded values and the exception class are compared with a reference acceptor; rejected lines are also fed to a real Gateway.listen step.",
         "Token alphabets per position (10/8/9/6/8 tokens thorough). Unusual int()-parsable spellings are either-accepted.",
         "5/C02"),
+    "C03": ("E1", "model_checking",
+        "exhaustive hostile-line alphabet delivered in every controller state found by BFS over set-up events, each followed by a usability probe; exhaustive short byte strings through the real stream pipeline",
+        "In every distinct controller state reachable in <= 3/4 set-up events (per version incl. unknown) every line of a ~3000-6000 line hostile alphabet (all internal types -1..40,255 x absurd payloads x gateway/known/unknown node, stream types, other commands, malformed shapes) is fed to a real listen() step which must yield or raise a library error; then three well-formed lines must be processed normally. All byte strings <= 4/5 over 6 byte values go through real StreamReader -> TCPTransport -> Gateway.listen.",
+        "Alphabet-bounded payloads/types; byte streams fully buffered (chunking is C17).",
+        "5/C03"),
     "C04": ("E1", "model_checking",
         "explicit-state model checking of the implementation (depth-bounded BFS) against a reference registry model",
         "All histories of received messages up to depth 5 (quick) / 5-6 (thorough) over a 28-36 event alphabet, per protocol version, on the real Gateway; after every transition the registry, the outcome (yield / error naming the node or child) and the consumed-line count are compared with a reference registry.",
